@@ -31,10 +31,10 @@ class IRSamples:
         it.overrides["id"] = _PyCall(lambda o: id(o))
         return it
 
-    def integral_env(self, itype):
-        form_data = Node("FormData", reduced_coefficients=[self.coef["B"], self.coef["C"]], coefficient_elements=[self.elB, self.elC],
+    def integral_env(self, itype, coefs=("B", "C"), enabled=(True, False, True)):
+        form_data = Node("FormData", reduced_coefficients=[self.coef[n] for n in coefs], coefficient_elements=[self.coef[n].f["ufl_element"].fn() for n in coefs],
                          original_form=Node("Form", constants=_PyCall(lambda: list(self.consts))), rank=2)
-        itg = Node("IntegralData", integral_type=itype, enabled_coefficients=[True, False, True], subdomain_id=(1,))
+        itg = Node("IntegralData", integral_type=itype, enabled_coefficients=list(enabled), subdomain_id=(1,))
         return {"form_data": form_data, "form_index": 0, "unique_elements": [self.elA, self.elB, self.elC], "integral_names": {}, "options": {},
                 "visualise": False, "itg_data": itg, "itg_data_index": 0, "expression_ir": {}, "ir": {}}
 
